@@ -3,7 +3,8 @@
 Enumerated: programs (static, vmap, repeat, scan, nested) x constraint sets (singles, pairs, full) x
 flag patterns for the constrained values: every assignment of {concrete True, concrete False,
 array(True), array(False)} to the constrained addresses (bounded), and for vector combinators a
-vectorized Mask(values, flags) at C[:, addr] with ALL 2^n flag vectors.  Operations: importance (all
+vectorized Mask(values, flags) at C[:, addr] with ALL 2^n flag vectors, and a single flag applied to the UNION of several entries ((a | b).mask(flag), all four
+flag forms).  Operations: importance (all
 outcomes of the free sites enumerated) and update from every leaf of the simulate tree.  Oracle: a
 value masked with a True flag behaves exactly like the unmasked constraint, with a False flag as if the
 address were unconstrained: the trace agrees with the effective constraint {addresses with True flag},
@@ -182,6 +183,27 @@ def _run(node, tier, seed):
                 check_importance(ctx, node, comp, space, args, chm, ce, lab, key_)
                 for st in inits[: 2 if tier == "quick" else 3]:
                     # constrain to alternative values so that the update really overwrites
+                    check_update(ctx, node, comp, space, st, chm, ce, lab, key_)
+        # a mask applied AFTER the union of several entries: (entry | entry | ...).mask(flag).  Entries at
+        # different indices of a vector combinator do not merge statically, so the union is a real Or node
+        # and the flag has to reach both of its operands (seeded change C35-c35c-sub3)
+        from ..harness import make_chm
+
+        for c in cons:
+            if len(c) < 2:
+                continue
+            for fl, f in FLAGS.items():
+                flag = f if isinstance(f, bool) else jnp.asarray(f == "arrT")
+                lab = "whole_map_flag:" + fl
+                key_ = gfi.asg_key(c) + "|whole:" + fl
+                try:
+                    chm = make_chm(c).mask(flag)
+                except Exception as e:
+                    ctx.fail(comp, "build", lab, f"exception:{type(e).__name__}", dict(program=node.name, case=key_, msg=str(e)[:300]))
+                    continue
+                ce = dict(c) if fl in ("T", "aT") else {}
+                check_importance(ctx, node, comp, space, args, chm, ce, lab, key_)
+                for st in inits[:2]:
                     check_update(ctx, node, comp, space, st, chm, ce, lab, key_)
         # vectorized masks under vector combinators: all 2^n flag vectors
         if node.kind in ("vmap", "repeat", "scan") and getattr(node, "n", 0) > 0:
